@@ -2,6 +2,7 @@
 C04 - aggregations group, label and reduce exactly as the reference engine.
 -/
 import PromqlVerif.Proofs.Agg
+import PromqlVerif.Proofs.HeapPerm
 namespace PromqlVerif.C04
 open PromqlVerif Val
 
@@ -97,5 +98,15 @@ theorem aggregation_over_fragment (c : Ctx V) (hq : c.q.noDupCheck = true) (op :
 /-- the heap selection of topk/bottomk only ever returns members of the group -/
 example : kSelect true 2 [("a", (1 : Int)), ("b", 5), ("c", 3), ("d", 4)] = [("d", 4), ("b", 5)] := by decide
 example : kSelect false 1 [("a", (3 : Int)), ("b", 1), ("c", 2)] = [("b", 1)] := by decide
+
+/-- the engine's bounded heap keeps exactly `min k n` samples of a group of `n` (`k ≥ 1`), for
+every arrival order and whatever NaNs the group holds ... -/
+theorem topk_keeps_min_k_n {α : Type} (top : Bool) (k : Nat) (hk : 1 ≤ k) (items : List (α × V)) :
+    (kSelect top k items).length = min k items.length := kSelect_length top k hk items
+
+/-- ... and they are samples of that group: the selection plus what was dropped is a rearrangement
+of the group -/
+theorem topk_keeps_group_samples {α : Type} (top : Bool) (k : Nat) (items : List (α × V)) :
+    ∃ dropped, (kSelect top k items ++ dropped).Perm items := kSelect_perm top k items
 
 end PromqlVerif.C04
